@@ -409,6 +409,17 @@ def asyncio_current_task(I, args, kwargs):
     return t
 
 
+def itertools_chain(I, args, kwargs):
+    """itertools.chain over iterables of known length: their elements one after the other, as a one-shot iterator"""
+    out = []
+    for a in args:
+        c = I.try_concrete_iter(a)
+        if c is None:
+            raise Unsupported("itertools.chain over an iterable of unknown length")
+        out.extend(c)
+    return I.B.ConcreteIter(out, oneshot=True)
+
+
 def install(E):
     # blocking primitives stored in attributes a contract's shape does not describe: acquiring one may block the calling thread
     E.external_result_types.update({"threading.Semaphore": "threading.Semaphore", "threading.BoundedSemaphore": "threading.Semaphore", "threading.Event": "threading.Event",
@@ -419,5 +430,5 @@ def install(E):
                         "threading.Thread": threading_thread, "asyncio.run_coroutine_threadsafe": run_coroutine_threadsafe, "trio.from_thread.run": trio_from_thread_run,
                         "asyncio.current_task": asyncio_current_task, "trio.sleep": trio_sleep, "str.__mod__": str_mod, "logging.getLogger": get_logger,
                         "threading.Semaphore": threading_semaphore, "threading.BoundedSemaphore": threading_semaphore, "threading.RLock": threading_semaphore,
-                        "math.isclose": math_isclose,
+                        "math.isclose": math_isclose, "itertools.chain": itertools_chain,
                         "asyncio.run": asyncio_run, "asyncio.shield": asyncio_shield, "asyncio.gather": asyncio_gather})
